@@ -25,17 +25,17 @@ theorem seedOf_length (d : Delivery) (V : Bytes) (hV : V.length = 32) : (seedOf 
 
 
 /-- the PRNG state object with its callback fields: the user callback and a defined user-data pointer -/
-structure PCbV (X : Array LByte) (ud : Nat) (lu : Lab) : Prop where
-  cb : readLE X 72 8 = some (userCb, .pub)
+structure PCbV (X : Array LByte) (ud : Nat) (lu : Lab) (cbv : Nat := userCb) : Prop where
+  cb : readLE X 72 8 = some (cbv, .pub)
   ud : readLE X 80 8 = some (ud, lu)
   udl : lu ≠ Lab.undef
 
 /-- **the body of `tinyjambu_prng_reseed(state)`** on the regenerated term, with the user entropy callback installed: `C ← V`, one delivery of the
     entropy script into `C`, `V ← Hash_df(0x01 ‖ V ‖ C)`, `C ← Hash_df(0x00 ‖ V)`, `reseed_counter ← 1`; returns whether the callback reported 32 bytes. -/
-theorem reseed_body (E0 : Env) (st : St) (bp : Nat) (X : Array LByte) (baseP : Nat) (V C : Bytes) (rc rl ud : Nat) (lu : Lab)
+theorem reseed_body (cbv : Nat) (hk : CbOk cbv) (E0 : Env) (st : St) (bp : Nat) (X : Array LByte) (baseP : Nat) (V C : Bytes) (rc rl ud : Nat) (lu : Lab)
     (e0s : E0.size = 8) (e0_0 : E0[0]? = some (mkPtr bp baseP, .pub))
-    (hP : st.mem[bp]? = some ⟨X, baseP⟩) (ho : PObjV X V C rc rl) (hcb : PCbV X ud lu) (hal : baseP % 8 = 0) (hltP : baseP + X.size < ptrBase) (hsz : st.mem.size + 5 < 2 ^ 30) :
-    RunsTo prog reseedBody E0 st (fun sig e s => sig = .ret (some (if (st.ent.headD ([], 0)).2 = 32 then 1 else 0, .pub)) ∧ s.ent = st.ent.tail ∧ s.mem.size = st.mem.size ∧
+    (hP : st.mem[bp]? = some ⟨X, baseP⟩) (ho : PObjV X V C rc rl) (hcb : PCbV X ud lu cbv) (hal : baseP % 8 = 0) (hltP : baseP + X.size < ptrBase) (hsz : st.mem.size + 5 < 2 ^ 30) :
+    RunsTo prog reseedBody E0 st (fun sig e s => sig = .ret (some (if cbRet cbv (st.ent.headD ([], 0)) = 32 then 1 else 0, .pub)) ∧ s.ent = st.ent.tail ∧ s.mem.size = st.mem.size ∧
       (∃ X', s.mem[bp]? = some ⟨X', baseP⟩ ∧ X'.size = X.size ∧
         PObjV X' (hashDf 1 V (seedOf (st.ent.headD ([], 0)) V)) (hashDf 0 (hashDf 1 V (seedOf (st.ent.headD ([], 0)) V)) []) 1 rl ∧ ∀ q, 68 ≤ q → ORel VLe X'[q]? X[q]?) ∧
       ∀ j, j ≠ bp → ORel (KeepW (fun _ => False) (fun _ => False)) s.mem[j]? st.mem[j]?) := by
@@ -76,7 +76,7 @@ theorem reseed_body (E0 : Env) (st : St) (bp : Nat) (X : Array LByte) (baseP : N
       exact runs_assign _ (eadd E2 32 (by decide) e2_1) ⟨rfl, rfl, hent, hm⟩
   intro e3 s3 ⟨he3, hent3, hm3⟩; rw [he3]
   have hP3 : s3.mem[bp]? = some ⟨X1, baseP⟩ := by rw [hm3, getElem?_setBlock', if_pos rfl, hP]; rfl
-  have hcb3 : readLE X1 72 8 = some (userCb, .pub) := by rw [← hcb.cb]; exact readLE_congr _ _ 8 72 (fun q h1 _ => hX1lo q (Or.inr (by omega)))
+  have hcb3 : readLE X1 72 8 = some (cbv, .pub) := by rw [← hcb.cb]; exact readLE_congr _ _ 8 72 (fun q h1 _ => hX1lo q (Or.inr (by omega)))
   have hud3 : readLE X1 80 8 = some (ud, lu) := by rw [← hcb.ud]; exact readLE_congr _ _ 8 80 (fun q h1 _ => hX1lo q (Or.inr (by omega)))
   generalize hE3 : setVar E2 3 (mkPtr bp (baseP + 32), .pub) = E3
   have e3s : E3.size = 8 := by rw [← hE3, size_setVar]; exact e2s
@@ -103,33 +103,31 @@ theorem reseed_body (E0 : Env) (st : St) (bp : Nat) (X : Array LByte) (baseP : N
       have hk' : V[k]? = some b := by rw [← hk]; congr 1; omega
       obtain ⟨l, hx, hl⟩ := hX1c.2 k b hk'
       exact ⟨l, by rw [← hX2, getElem?_writeBytes, if_neg (by simp only [List.length_map, List.length_take]; omega)]; exact hx, hl⟩
-  refine runs_seq (Q := fun e s => e.size = 8 ∧ e[1]? = some (mkPtr bp baseP, .pub) ∧ e[2]? = some (if d.2 = 32 then 1 else 0, .pub) ∧ s.ent = st.ent.tail ∧ s.mem = setBlock st.mem bp X2) ?_ ?_
+  refine runs_seq (Q := fun e s => e.size = 8 ∧ e[1]? = some (mkPtr bp baseP, .pub) ∧ e[2]? = some (if cbRet cbv d = 32 then 1 else 0, .pub) ∧ s.ent = st.ent.tail ∧ s.mem = setBlock st.mem bp X2) ?_ ?_
   · refine runs_seq (Q := fun e s => e = setVar E3 4 (ud, lu) ∧ s.ent = st.ent ∧ s.mem = s3.mem)
       (runs_load (mkPtr bp (baseP + 80)) bp 80 8 (ud, lu) rfl (eadd E3 80 (by decide) e3_1) (resolve_mkPtr s3.mem bp 80 8 ⟨X1, baseP⟩ hP3 (by show 80 + 8 ≤ X1.size; omega) (by show baseP + 80 < _; omega) (fun _ => by show (baseP + 80) % 8 = 0; omega))
         (by rw [blockBytes_of hP3]; exact hud3) ⟨rfl, rfl, hent3, rfl⟩) ?_
     intro e4 s4 ⟨he4, hent4, hm4⟩; rw [he4]
     have e4_1 : (setVar E3 4 (ud, lu))[1]? = some (mkPtr bp baseP, .pub) := by rw [get_set_ne _ _ _ _ (by decide)]; exact e3_1
-    refine runs_seq (Q := fun e s => e = setVar (setVar E3 4 (ud, lu)) 6 (userCb, .pub) ∧ s.ent = st.ent ∧ s.mem = s3.mem)
-      (runs_load (mkPtr bp (baseP + 72)) bp 72 8 (userCb, .pub) rfl (eadd _ 72 (by decide) e4_1) (by rw [hm4]; exact resolve_mkPtr s3.mem bp 72 8 ⟨X1, baseP⟩ hP3 (by show 72 + 8 ≤ X1.size; omega) (by show baseP + 72 < _; omega) (fun _ => by show (baseP + 72) % 8 = 0; omega))
+    refine runs_seq (Q := fun e s => e = setVar (setVar E3 4 (ud, lu)) 6 (cbv, .pub) ∧ s.ent = st.ent ∧ s.mem = s3.mem)
+      (runs_load (mkPtr bp (baseP + 72)) bp 72 8 (cbv, .pub) rfl (eadd _ 72 (by decide) e4_1) (by rw [hm4]; exact resolve_mkPtr s3.mem bp 72 8 ⟨X1, baseP⟩ hP3 (by show 72 + 8 ≤ X1.size; omega) (by show baseP + 72 < _; omega) (fun _ => by show (baseP + 72) % 8 = 0; omega))
         (by rw [hm4, blockBytes_of hP3]; exact hcb3) ⟨rfl, rfl, hent4, hm4⟩) ?_
     intro e5 s5 ⟨he5, hent5, hm5⟩; rw [he5]
-    generalize hE5 : setVar (setVar E3 4 (ud, lu)) 6 (userCb, .pub) = E5
+    generalize hE5 : setVar (setVar E3 4 (ud, lu)) 6 (cbv, .pub) = E5
     have e5s : E5.size = 8 := by rw [← hE5]; simp only [size_setVar]; exact e3s
     have e5_1 : E5[1]? = some (mkPtr bp baseP, .pub) := by rw [← hE5, get_set_ne _ _ _ _ (by decide)]; exact e4_1
     have e5_2 : E5[2]? = some (0, .pub) := by rw [← hE5, get_set_ne _ _ _ _ (by decide), get_set_ne _ _ _ _ (by decide)]; exact e3_2
     have e5_4 : E5[4]? = some (ud, lu) := by rw [← hE5, get_set_ne _ _ _ _ (by decide)]; exact get_set_eq _ _ _ (by rw [e3s]; decide)
-    have e5_6 : E5[6]? = some (userCb, .pub) := by rw [← hE5]; exact get_set_eq _ _ _ (by rw [size_setVar, e3s]; decide)
-    have hP5 : ({ s5 with leak := .icall userCb :: s5.leak } : St).mem[bp]? = some ⟨X1, baseP⟩ := by show s5.mem[bp]? = _; rw [hm5]; exact hP3
-    have hdel := deliver_block { s5 with leak := .icall userCb :: s5.leak } bp baseP 32 X1 hP5 (by omega) (by rw [hX1s]; exact hltP)
-    have hhd : ({ s5 with leak := .icall userCb :: s5.leak } : St).ent.headD ([], 0) = d := by show s5.ent.headD _ = _; rw [hent5]; exact hd
-    rw [hhd, hX2] at hdel
-    refine runs_seq (Q := fun e s => e = setVar E5 5 (d.2, .pub) ∧ s.ent = st.ent.tail ∧ s.mem = setBlock st.mem bp X2)
-      (runs_calli_user (ud, lu) (mkPtr bp (baseP + 32)) 32 _ _ (by simp only [evalE, e5_6, reduceCtorEq, if_false])
+    have e5_6 : E5[6]? = some (cbv, .pub) := by rw [← hE5]; exact get_set_eq _ _ _ (by rw [size_setVar, e3s]; decide)
+    have hP5 : s5.mem[bp]? = some ⟨X1, baseP⟩ := by rw [hm5]; exact hP3
+    have hhd : s5.ent.headD ([], 0) = d := by rw [hent5]; exact hd
+    refine runs_seq (Q := fun e s => e = setVar E5 5 (cbRet cbv d, .pub) ∧ s.ent = st.ent.tail ∧ s.mem = setBlock st.mem bp X2)
+      (runs_calli_cb cbv hk (ud, lu) bp baseP 32 X1 (by simp only [evalE, e5_6, reduceCtorEq, if_false])
         (by simp only [evalArgs, evalE, e5_4, e5_1, hcb.udl, reduceCtorEq, if_false, BinOp.needsPub2, BinOp.needsPub1, Bool.false_and, Bool.or_self, Bool.false_eq_true, binVal, Ty.modulus,
-          Lab.join_pub_pub, hpk 32 (by decide)]) hdel
-        ⟨rfl, rfl, by show s5.ent.tail = _; rw [hent5], by show setBlock s5.mem bp X2 = _; rw [hm5, hm3, setBlock_setBlock _ _ _ _ _ hP]⟩) ?_
+          Lab.join_pub_pub, hpk 32 (by decide)]) hP5 (by omega) (by rw [hX1s]; exact hltP)
+        (fun L => by rw [hhd, hX2]; exact ⟨rfl, rfl, by show s5.ent.tail = _; rw [hent5], by show setBlock s5.mem bp X2 = _; rw [hm5, hm3, setBlock_setBlock _ _ _ _ _ hP]⟩)) ?_
     intro e6 s6 ⟨he6, hent6, hm6⟩; rw [he6]
-    by_cases h32 : d.2 = 32
+    by_cases h32 : cbRet cbv d = 32
     · refine runs_ite_true 1 ?_ (by decide) (runs_assign (1, .pub) (by simp only [evalE]) ⟨rfl, by simp only [size_setVar]; exact e5s,
         by rw [get_set_ne _ _ _ _ (by decide), get_set_ne _ _ _ _ (by decide)]; exact e5_1, by rw [get_set_eq _ _ _ (by rw [size_setVar, e5s]; decide), if_pos h32], hent6, hm6⟩)
       simp only [evalE, get_set_eq _ _ _ (show 5 < E5.size from by omega), reduceCtorEq, if_false, BinOp.needsPub2, BinOp.needsPub1, Bool.false_and, Bool.or_self,
@@ -182,14 +180,14 @@ theorem reseed_body (E0 : Env) (st : St) (bp : Nat) (X : Array LByte) (baseP : N
   have hrl2 : readLE Z2 68 4 = some (rl, .pub) := readLE_pub_keep Z2 X 4 68 rl (fun q h1 _ => hfield2 q (by omega)) ho.hrl
   have hZ2sz : Z2.size = X.size := by rw [hZ2s, hZ1s, hX2s]
   -- reseed_counter = 1
-  refine runs_seq (Q := fun e s => e[2]? = some (if d.2 = 32 then 1 else 0, .pub) ∧ s.ent = st.ent.tail ∧ s.mem = setBlock s9.mem bp (writeLE Z2 64 1 .pub 4)) ?_ ?_
+  refine runs_seq (Q := fun e s => e[2]? = some (if cbRet cbv d = 32 then 1 else 0, .pub) ∧ s.ent = st.ent.tail ∧ s.mem = setBlock s9.mem bp (writeLE Z2 64 1 .pub 4)) ?_ ?_
   · refine runs_seq (Q := fun e s => e = setVar e7 7 (mkPtr bp (baseP + 64), .pub) ∧ s = s9) (runs_assign _ (eadd e7 64 (by decide) e7_1) ⟨rfl, rfl, rfl⟩) ?_
     intro e s ⟨he, hs⟩; rw [he, hs]
     refine runs_store (mkPtr bp (baseP + 64)) 1 bp 64 4 .pub rfl (by simp only [evalE, get_set_eq _ _ _ (show 7 < e7.size from by omega), reduceCtorEq, if_false])
       (by simp only [evalE, castVal_u32_i32_1']) (resolve_word hO2 64 (by omega) (by omega) (by omega))
       ⟨rfl, by rw [get_set_ne _ _ _ _ (by decide)]; exact e7_2, by rw [hent9, hent8]; exact hent7, by rw [blockBytes_of hO2]⟩
   intro e10 s10 ⟨e10_2, hent10, hm10⟩
-  refine runs_ret_some (if d.2 = 32 then 1 else 0, .pub) (by simp only [evalE, e10_2, reduceCtorEq, if_false]) ?_
+  refine runs_ret_some (if cbRet cbv d = 32 then 1 else 0, .pub) (by simp only [evalE, e10_2, reduceCtorEq, if_false]) ?_
   refine ⟨rfl, hent10, by rw [hm10, size_setBlock', hsz9, hsz8]; exact hsz7, ⟨writeLE Z2 64 1 .pub 4, by rw [hm10, getElem?_setBlock', if_pos rfl, hO2]; rfl,
     by rw [size_writeLE]; exact hZ2sz, ?_, fun q hq => by rw [getElem?_writeLE_out _ _ _ _ _ _ (by omega)]; exact hfield2 q (by omega)⟩, fun j hj => ?_⟩
   · refine ⟨by rw [size_writeLE, hZ2sz]; exact hXs, ⟨by rw [size_writeLE]; exact hV2.1, fun k b hk => ?_⟩, hV1l, ⟨by rw [size_writeLE]; exact hO2d.1, fun k b hk => ?_⟩, hC2l, ?_, by decide, ?_⟩
@@ -225,25 +223,25 @@ theorem reseedPost_extract {st : St} {bp : Nat} {X : Array LByte} {baseP : Nat} 
   rw [hext]; exact h
 
 /-- **`tinyjambu_prng_reseed(state)`** called for its effect (as `tinyjambu_prng_generate` does) -/
-theorem prng_reseed_call (env : Env) (st : St) (es : Expr) (bp : Nat) (X : Array LByte) (baseP : Nat) (V C : Bytes) (rc rl ud : Nat) (lu : Lab)
+theorem prng_reseed_call (cbv : Nat) (hk : CbOk cbv) (env : Env) (st : St) (es : Expr) (bp : Nat) (X : Array LByte) (baseP : Nat) (V C : Bytes) (rc rl ud : Nat) (lu : Lab)
     (hes : evalE env es = .ok (mkPtr bp baseP, .pub))
-    (hP : st.mem[bp]? = some ⟨X, baseP⟩) (ho : PObjV X V C rc rl) (hcb : PCbV X ud lu) (hal : baseP % 8 = 0) (hltP : baseP + X.size < ptrBase) (hsz : st.mem.size + 5 < 2 ^ 30) :
+    (hP : st.mem[bp]? = some ⟨X, baseP⟩) (ho : PObjV X V C rc rl) (hcb : PCbV X ud lu cbv) (hal : baseP % 8 = 0) (hltP : baseP + X.size < ptrBase) (hsz : st.mem.size + 5 < 2 ^ 30) :
     RunsTo prog (.call none idx_tinyjambu_prng_reseed [es]) env st (fun sig e s => sig = .normal ∧ e = env ∧ ReseedPost st bp X baseP V rl s) := by
   refine runs_call_none f_tinyjambu_prng_reseed [(mkPtr bp baseP, .pub)] prog_prng_reseed (by simp only [evalArgs, hes]) rfl ?_
   rw [reseed_body_eq]
-  refine (reseed_body _ { st with mem := (enterFun f_tinyjambu_prng_reseed [(mkPtr bp baseP, .pub)] st.mem).2 } bp X baseP V C rc rl ud lu rfl rfl hP ho hcb hal hltP hsz).weaken ?_
+  refine (reseed_body cbv hk _ { st with mem := (enterFun f_tinyjambu_prng_reseed [(mkPtr bp baseP, .pub)] st.mem).2 } bp X baseP V C rc rl ud lu rfl rfl hP ho hcb hal hltP hsz).weaken ?_
   intro sig e s ⟨_, h⟩
   exact ⟨rfl, rfl, reseedPost_extract h⟩
 
 /-- **`x = tinyjambu_prng_reseed(state)`**: the result is 1 exactly when the callback reported 32 bytes -/
-theorem prng_reseed_call_ret (x : Nat) (env : Env) (st : St) (es : Expr) (bp : Nat) (X : Array LByte) (baseP : Nat) (V C : Bytes) (rc rl ud : Nat) (lu : Lab)
+theorem prng_reseed_call_ret (cbv : Nat) (hk : CbOk cbv) (x : Nat) (env : Env) (st : St) (es : Expr) (bp : Nat) (X : Array LByte) (baseP : Nat) (V C : Bytes) (rc rl ud : Nat) (lu : Lab)
     (hes : evalE env es = .ok (mkPtr bp baseP, .pub))
-    (hP : st.mem[bp]? = some ⟨X, baseP⟩) (ho : PObjV X V C rc rl) (hcb : PCbV X ud lu) (hal : baseP % 8 = 0) (hltP : baseP + X.size < ptrBase) (hsz : st.mem.size + 5 < 2 ^ 30) :
+    (hP : st.mem[bp]? = some ⟨X, baseP⟩) (ho : PObjV X V C rc rl) (hcb : PCbV X ud lu cbv) (hal : baseP % 8 = 0) (hltP : baseP + X.size < ptrBase) (hsz : st.mem.size + 5 < 2 ^ 30) :
     RunsTo prog (.call (some x) idx_tinyjambu_prng_reseed [es]) env st (fun sig e s => sig = .normal ∧
-      e = setVar env x (if (st.ent.headD ([], 0)).2 = 32 then 1 else 0, .pub) ∧ ReseedPost st bp X baseP V rl s) := by
+      e = setVar env x (if cbRet cbv (st.ent.headD ([], 0)) = 32 then 1 else 0, .pub) ∧ ReseedPost st bp X baseP V rl s) := by
   refine runs_call_some f_tinyjambu_prng_reseed [(mkPtr bp baseP, .pub)] prog_prng_reseed (by simp only [evalArgs, hes]) rfl ?_
   rw [reseed_body_eq]
-  refine (reseed_body _ { st with mem := (enterFun f_tinyjambu_prng_reseed [(mkPtr bp baseP, .pub)] st.mem).2 } bp X baseP V C rc rl ud lu rfl rfl hP ho hcb hal hltP hsz).weaken ?_
+  refine (reseed_body cbv hk _ { st with mem := (enterFun f_tinyjambu_prng_reseed [(mkPtr bp baseP, .pub)] st.mem).2 } bp X baseP V C rc rl ud lu rfl rfl hP ho hcb hal hltP hsz).weaken ?_
   intro sig e s ⟨hs, h⟩
   exact ⟨_, hs, rfl, rfl, reseedPost_extract h⟩
 
